@@ -323,6 +323,20 @@ impl Prop for C01 {
                 },
             ));
         }
+        // (e2) clock-time literals near midnight under every kind of default zone
+        f.push(Family::new(
+            "zone-times",
+            Mode::Full,
+            "time literals [0:00, 0:10, 01:30, 12:00, 23:15, 23:59:59, 11 pm, 12:30 am, 24:00] x continuations [none, + 1 hour, - 90 minutes, to UTC, to EST, as unix] x default zones set through set_timezone [UTC, CET, EST, NST, GMT+3, GMT+10:00, GMT-12, GMT+14, GMT-3:30] x languages en/tr: returns normally (the UTC instant of a wall time near midnight lies on another day)",
+            move |ch| {
+                let t = *ch.pick(&["0:00", "0:10", "01:30", "12:00", "23:15", "23:59:59", "11 pm", "12:30 am", "24:00"]);
+                let cont = *ch.pick(&["", " + 1 hour", " - 90 minutes", " to UTC", " to EST", " as unix"]);
+                let tz = *ch.pick(&[None, Some("CET"), Some("EST"), Some("NST"), Some("GMT+3"), Some("GMT+10:00"), Some("GMT-12"), Some("GMT+14"), Some("GMT-3:30")]);
+                let lang = *ch.pick(&["en", "tr"]);
+                let cfg = Cfg { tz: tz.map(|s| s.to_string()), ..Default::default() };
+                Some(Case { cfg, lang: lang.into(), now: None, text: format!("{}{}", t, cont), independent: false })
+            },
+        ));
         // (f) stress shapes
         {
             f.push(Family::new(
